@@ -147,6 +147,17 @@ func cmdCheck(args []string) {
 		results = append(results, fr)
 		if fr.VC != nil {
 			for _, o := range fr.VC.obls {
+				if o.OnlyProps {
+					keep := false
+					for _, p := range o.Props {
+						if p == prop {
+							keep = true
+						}
+					}
+					if !keep {
+						continue
+					}
+				}
 				jobs = append(jobs, solveJob{fr.VC, o, fr.VC.heap0All()})
 			}
 		}
@@ -546,6 +557,7 @@ type replayRecord struct {
 	SolverOutput   string `json:"solver_output,omitempty"`
 	Model          string `json:"model,omitempty"`
 	ReplayTest     string `json:"replay_test,omitempty"`
+	ReplayPkg      string `json:"replay_pkg,omitempty"`
 	ReplayOutcome  string `json:"replay_outcome,omitempty"`
 	NoFailingInput bool   `json:"no_failing_input_found"`
 }
